@@ -452,6 +452,8 @@ impl Graph {
             .enumerate()
             .map(|(idx, dfa_id)| (dfa_id, State(idx)))
             .collect::<HashMap<StateID, State>>();
+        #[cfg(feature = "verif_hooks")]
+        let dfa_lookup = crate::verif_hooks::SeamMap::new("dfa_lookup", dfa_lookup);
 
         graph.root = dfa_lookup[&start_id];
         graph.states = vec![StateData::new(); dfa_lookup.len()];
